@@ -71,13 +71,37 @@ def gen_problem(rng, n=None, p=None, m=None, convex=True, wellposed=True, sparse
         elif kd == "cross": lb.append(x0[i] + mg); ub.append(x0[i] - mg)
         elif kd == "biglb": lb.append("-2000000000000000000000000000000000"); ub.append(x0[i] + mg)
         else: raise ValueError(kd)
-    return {"n": n, "p": p, "m": m, "P": P, "c": c, "A": A, "b": b, "G": G, "h": h, "lb": lb, "ub": ub, "kinds": kinds, "x0": x0}
+    return with_patterns({"n": n, "p": p, "m": m, "P": P, "c": c, "A": A, "b": b, "G": G, "h": h, "lb": lb, "ub": ub, "kinds": kinds, "x0": x0})
+
+def pattern_of(M, rows, cols):
+    return sorted((i, j) for i in range(rows) for j in range(cols) if M[i][j] != 0)
+
+def with_patterns(pb):
+    """fix the sparsity patterns of P, A, G (the library's update() contract: same pattern as at setup)"""
+    pb = dict(pb)
+    pb["patP"] = pattern_of(pb["P"], pb["n"], pb["n"])
+    pb["patA"] = pattern_of(pb["A"], pb["p"], pb["n"])
+    pb["patG"] = pattern_of(pb["G"], pb["m"], pb["n"])
+    return pb
+
+def mat_pat_tokens(M, rows, cols, pat):
+    return mat_tokens({(i, j): M[i][j] for (i, j) in pat}, rows, cols)
 
 def blocks_text(pb, which=None, lb_present=True, ub_present=True, full_P=True):
     """text of the blocks of a SETUP/UPDATE op. which: set of names (None = all present ones)"""
     n, p, m = pb["n"], pb["p"], pb["m"]
     out = []
     def want(k): return which is None or k in which
+    if "patP" in pb:
+        if want("P"): out.append("P " + mat_pat_tokens(pb["P"], n, n, pb["patP"]))
+        if want("c"): out.append("c " + vec_tokens(pb["c"]))
+        if p > 0 and want("A"): out.append("A " + mat_pat_tokens(pb["A"], p, n, pb["patA"]))
+        if p > 0 and want("b"): out.append("b " + vec_tokens(pb["b"]))
+        if m > 0 and want("G"): out.append("G " + mat_pat_tokens(pb["G"], m, n, pb["patG"]))
+        if m > 0 and want("h"): out.append("h " + vec_tokens(pb["h"]))
+        if want("lb") and lb_present: out.append("lb " + vec_tokens(pb["lb"]))
+        if want("ub") and ub_present: out.append("ub " + vec_tokens(pb["ub"]))
+        return "\n".join(out)
     if want("P"): out.append("P " + mat_tokens(pb["P"], n, n))
     if want("c"): out.append("c " + vec_tokens(pb["c"]))
     if p > 0 and want("A"): out.append("A " + mat_tokens(pb["A"], p, n))
@@ -111,24 +135,29 @@ def perturb(rng, pb, what):
     x0 = pb["x0"]
     if "P" in what:
         P = [row[:] for row in pb["P"]]
-        for i in range(n): P[i][i] += Fr(rng.randint(0, 2), rng.choice([1, 2]))
-        if n > 1:
-            i, j = rng.sample(range(n), 2); d = Fr(rng.randint(-1, 1), 2); P[i][j] += d; P[j][i] += d
+        pat = set(pb.get("patP", [(i, j) for i in range(n) for j in range(n)]))
+        for i in range(n):
+            if (i, i) in pat: P[i][i] += Fr(rng.randint(0, 2), rng.choice([1, 2]))
+        off = [(i, j) for (i, j) in pat if i < j and (i, i) in pat and (j, j) in pat]
+        if off:
+            i, j = rng.choice(off); d = Fr(rng.randint(-1, 1), 2); P[i][j] += d; P[j][i] += d
             P[i][i] += abs(d); P[j][j] += abs(d)
         q["P"] = P
     if "c" in what: q["c"] = [v + rnd_small(rng, -2, 2) for v in pb["c"]]
     if "A" in what and p:
         A = [row[:] for row in pb["A"]]
+        patA = set(pb.get("patA", [(i, j) for i in range(p) for j in range(n)]))
         for i in range(p):
             for j in range(p, n):
-                if rng.random() < 0.5: A[i][j] += rnd_small(rng, -1, 1)
+                if (i, j) in patA and rng.random() < 0.5: A[i][j] += rnd_small(rng, -1, 1)
         q["A"] = A
         if "b" not in what: what = set(what) | {"b"}
     if "b" in what and p: q["b"] = [sum(q["A"][i][j] * x0[j] for j in range(n)) for i in range(p)]
     if "G" in what and m:
         G = [row[:] for row in pb["G"]]
-        for i in range(m):
-            j = rng.randrange(n); G[i][j] += rnd_small(rng, -1, 1)
+        patG = sorted(pb.get("patG", [(i, j) for i in range(m) for j in range(n)]))
+        for (i, j) in patG:
+            if rng.random() < 0.4: G[i][j] += rnd_small(rng, -1, 1)
         q["G"] = G
         if "h" not in what: what = set(what) | {"h"}
     if "h" in what and m:
